@@ -15,6 +15,7 @@
 package sorted_set
 
 import (
+	"cmp"
 	"errors"
 	"slices"
 	"strconv"
@@ -166,4 +167,13 @@ func compareScores(old Score, new Score, comp string) Score {
 		}
 		return old
 	}
+}
+
+// compareMembers orders sorted set members by score and, for equal scores, by member,
+// so that members with the same score always appear in the same (lexicographical) order.
+func compareMembers(a, b MemberParam) int {
+	if c := cmp.Compare(a.Score, b.Score); c != 0 {
+		return c
+	}
+	return cmp.Compare(a.Value, b.Value)
 }
